@@ -97,6 +97,21 @@ def ser_newdict(node, data):
     return out
 
 
+def ser_redefine(node, data):
+    """Mapper style 5: returns a new dict in which the pre-filled `data` entry is replaced by the mapper's own text."""
+    d = node.data
+    if isinstance(d, Obj):
+        out = {"data": "display:" + d.name, "name": d.name, "extra": d.extra, "guid": d.guid}
+        if "data_id" in data:
+            out["data_id"] = data["data_id"]
+        if isinstance(d, HObj):
+            out["hobj"] = True
+        if isinstance(d, FalsyObj):
+            out["falsy"] = True
+        return out
+    return data
+
+
 def ser_ownkey(node, data):
     """Mapper style 3: stores the id under its own key only; the inverse mapper restores item['data_id']."""
     d = node.data
@@ -161,7 +176,7 @@ def build(case):
             used = {ids[j] for j in range(i) if par[j] == par[i]}
             for _ in range(60):
                 lab = rng.choice(["a", "b", "c"])
-                did = rng.choice([None, "X", "Y", 5, 6, lab + "_id", 0, ""])
+                did = rng.choice([None, "X", "Y", 5, 6, lab + "_id", 0, "", "a", "b"])  # "a"/"b": an id equal to another node's *data*
                 eff = hash(lab) if did is None else did
                 if eff not in used:
                     break
@@ -197,7 +212,7 @@ def shape(t):
     return rec(list(t.children))
 
 
-def mirror(dicts, kids, mapper_used, bad, path="/", ownkey=False):
+def mirror(dicts, kids, mapper_used, bad, path="/", ownkey=False, redefine=False):
     if not isinstance(dicts, list) or len(dicts) != len(kids):
         bad.append(f"{path}: {len(dicts) if isinstance(dicts, list) else dicts!r} dicts for {len(kids)} nodes")
         return
@@ -205,7 +220,7 @@ def mirror(dicts, kids, mapper_used, bad, path="/", ownkey=False):
         if not isinstance(d, dict):
             bad.append(f"{path}: entry is {type(d).__name__}")
             continue
-        if d.get("data") != str(c.data):
+        if d.get("data") != str(c.data) and not (redefine and isinstance(c.data, Obj)):
             bad.append(f"{path}: data {d.get('data')!r} != str({c.data!r})")
         default = c.data_id == hash(c.data)
         if default and "data_id" in d:
@@ -217,9 +232,11 @@ def mirror(dicts, kids, mapper_used, bad, path="/", ownkey=False):
             bad.append(f"{path}{c.data}: data_id {d.get('data_id', '<missing>')!r} != {c.data_id!r}")
         ck = list(c.children)
         if ck or "children" in d:
-            mirror(d.get("children", []), ck, mapper_used, bad, f"{path}{c.data}/", ownkey)
+            mirror(d.get("children", []), ck, mapper_used, bad, f"{path}{c.data}/", ownkey, redefine)
         if mapper_used and isinstance(c.data, Obj) and (d.get("guid") != c.data.guid or d.get("name") != c.data.name):
             bad.append(f"{path}{c.data}: mapper output missing")
+        if redefine and isinstance(c.data, Obj) and d.get("data") != "display:" + c.data.name:
+            bad.append(f"{path}{c.data}: the entry's 'data' is {d.get('data')!r}, the mapper returned 'display:{c.data.name}'")
 
 
 def run_case(case, res):
@@ -287,7 +304,7 @@ def run_case(case, res):
                 mapper_used = fl in ("obj", "objdefault")
                 src = shape(t)
                 style = case.get("style", 0) if mapper_used else 0
-                ser_f, deser_f = [(ser, deser), (ser_newdict, deser), (ser_ownkey, deser_ownkey), (ser_none, deser)][style]
+                ser_f, deser_f = [(ser, deser), (ser_newdict, deser), (ser_ownkey, deser_ownkey), (ser_none, deser), (ser_redefine, deser)][style]
                 res.count(f"mapper_style:{style}" if mapper_used else "no_mapper")
                 seen_nodes = []
 
@@ -304,7 +321,7 @@ def run_case(case, res):
                 if isinstance(dl, tuple):
                     bad.append(f"to_dict_list raised {dl!r}")
                 else:
-                    mirror(dl, list(t.children), mapper_used, bad, ownkey=style == 2)
+                    mirror(dl, list(t.children), mapper_used, bad, ownkey=style == 2, redefine=style == 4)
                     if shape(t) != src:
                         bad.append("to_dict_list changed the source")
                     # a second call gives an equal, independent structure (no internal state is handed out)
@@ -358,7 +375,7 @@ def run_case(case, res):
                             bad.append(f"to_dict raised {d!r}")
                             continue
                         b = []
-                        mirror([d], [x], mapper_used, b, ownkey=style == 2)
+                        mirror([d], [x], mapper_used, b, ownkey=style == 2, redefine=style == 4)
                         bad.extend(b)
                         t4 = Tree("t4", calc_data_id=calc_id if fl == "obj" else None)
                         top = t4.add("TOP")
@@ -403,7 +420,7 @@ def run_shard(spec, res):
                 if k % NSHARDS != spec["i"]:
                     continue
                 for fl in FLAVOURS:
-                    for style in ((0, 1, 2, 3) if fl in ("obj", "objdefault") else (0,)):
+                    for style in ((0, 1, 2, 3, 4) if fl in ("obj", "objdefault") else (0,)):
                         run_case({"f": gen.code(f), "flavour": fl, "seed": seed, "style": style}, res)
                         if n >= 3 and (k + style) % 2 == 0:
                             run_case({"f": gen.code(f), "flavour": fl, "seed": seed, "style": style, "prelude": True,
@@ -418,7 +435,7 @@ def run_shard(spec, res):
         rng = rng_for(seed, "c14-rand", spec["i"])
         for j in range(spec["count"]):
             f = gen.random_forest(rng, rng.randint(6, 30))
-            run_case({"f": gen.code(f), "flavour": rng.choice(FLAVOURS), "seed": rng.randrange(10**6), "style": rng.randrange(4),
+            run_case({"f": gen.code(f), "flavour": rng.choice(FLAVOURS), "seed": rng.randrange(10**6), "style": rng.randrange(5),
                       "prelude": rng.random() < 0.5, "ext": rng.random() < 0.3}, res)
             if res.expired():
                 break
